@@ -174,11 +174,19 @@ def matCase {α β} (me : ME α) (meIdeal : Option (ME α)) (se : SE β) (routin
     match runModel me routine nr nc k a b with
     | none => bad
     | some m =>
-      -- machine integers: if the overflow-checked model and the idealised integer model
-      -- differ, an intermediate of the i64 elimination left the 63-bit range.
-      --  * the exact answer (idealised model) itself does not fit i64: the property's "exact
-      --    value" cannot be asked of a type that cannot hold it — case excluded (DESIGN §5.6);
-      --  * the exact answer fits, yet the implementation panics / answers something else:
+      -- machine integers.  `m` is the answer of the overflow-checked model (`i64Backend PRC.chk`:
+      -- every `+ - * / abs neg` of the Rust text followed by the range check of the
+      -- overflow-checked harness build) and is ALWAYS the payload compared with the
+      -- implementation — value, ERR or PANIC.  `exact` is the answer of the idealised integer
+      -- model.  By `i64_checked_refines_exact` (Props/C18.lean) they differ only if the checked
+      -- model panics, i.e. an intermediate of the i64 computation left the 63-bit range.  Then
+      --  * the exact answer itself does not fit i64: the property's "exact value" cannot be
+      --    asked of a type that cannot hold it — case excluded (DESIGN §5.6), verdict ok;
+      --  * the exact answer fits and the implementation returned exactly it: ordinary Spec
+      --    (and the payload PANIC ≠ out shows up as a model disagreement: the checked model
+      --    mispredicted an overflow);
+      --  * the exact answer fits (the checked model panics although the exact answer fits) and
+      --    the implementation panicked or answered something else:
       --    `fail machine-integer-overflow` (known finding F-C18-overflow, by cause class).
       match meIdeal with
       | none => (m, runSpec se routine nr nc k a b out)
@@ -187,10 +195,8 @@ def matCase {α β} (me : ME α) (meIdeal : Option (ME α)) (se : SE β) (routin
         | none => bad
         | some exact =>
           if exact == m then (m, runSpec se routine nr nc k a b out)
-          -- overflow: the payload compared with the implementation is the overflow-checked
-          -- model's own answer (normally PANIC, as in the overflow-checked harness build)
           else if !fitsI64 exact then (m, ok)
-          else if (toks exact) == out then ("-", runSpec se routine nr nc k a b out)
+          else if (toks exact) == out then (m, runSpec se routine nr nc k a b out)
           else (m, fail "machine-integer-overflow")
 
 /-! ### prime residue classes -/
